@@ -43,6 +43,18 @@ CLAIMS = {
             "total (never panics), accepts exactly the well-formed strings (length, hex digits, value fits), denotes the string, "
             "upper = lower case, round trip parse(print t) = t; rejects every string with a non-hex byte or a wrong length. All n.",
             "section 6 C09"),
+    "C10": ("In the model every operation common to Lut and LutN is ONE Gallina function; the few LutN-specific functions "
+            "(from_cofactors, cmp, from_blocks, bdd_complexity) are proved equal to the Lut ones on every operand pair the Rust "
+            "types admit. LutN -> Lut -> LutN proved the identity, TryFrom proved to fail exactly when the variable counts differ, "
+            "u8/u16/u32/u64 conversions of Lut3..Lut6 proved bit-exact bijections (bit m of the integer is f(m)); the 13 aliases are "
+            "read from the source (generated) and proved to be StaticLut<N, table_size N>. Both Rust types are tied to the shared model "
+            "function by paired transcript replay (identical inputs on both types, every alias N = 0..12).", "section 6 C10"),
+    "C19": ("PARTIAL (proof of everything that is logic + statistical monitoring of the generator). Proved for an arbitrary generator "
+            "output stream: the result is well formed, table bit m is exactly bit m mod 64 of generator word m / 64 (distinct assignments "
+            "read distinct generator bits), masking is a uniform projection (bijection word <-> (kept bits, dropped bits)), every "
+            "well-formed table is reachable, both-values and pairwise-distinctness transfer from the stream to the functions. NOT provable: "
+            "quality and thread-locality of rand::thread_rng() - monitored per run (256 draws per size and thread, 1 and 16 threads, both "
+            "types, both profiles): well-formedness, both values at every assignment, distinct draws, threads differ.", "section 6 C19"),
     "C11": ("zero/one/nth_var/symmetric/equals/threshold/parity/majority/default and get/set/unset bit proved against their "
             "popcount definitions for every n < 64, every k (incl. k >= 64 and usize::MAX), every count mask; COUNT_MASKS and "
             "VAR_MASK facts by vm_compute on the generated tables; guards proved PanicAlways.", "section 6 C11"),
